@@ -29,7 +29,10 @@ AllNames == Names1 \cup Names2 \cup NamesN
 (* DFT with tabulated twiddles; multiplications by 1, -1, i, -i and of 0   *)
 (* are exact shortcuts                                                     *)
 (***************************************************************************)
-TW == [N \in 1..MaxN |-> Twiddles(N)]
+\* TLC does not cache constant definitions that rest on recursive operators, so the
+\* tables (twiddles, 1/sqrt n) are computed once in the initial predicate and carried in
+\* the state variable `tab` (never changed)
+VARIABLE tab
 FMinusOne == Neg(FOne)
 CMulW(x, w) ==
   IF x.re = FZero /\ x.im = FZero THEN CZero
@@ -39,7 +42,7 @@ CMulW(x, w) ==
   ELSE IF w.re = FZero /\ w.im = FMinusOne THEN C(x.im, Neg(x.re))
   ELSE CMul(x, w)
 DftT(x, sgn) ==
-  LET N == Len(x)  W == TW[N]
+  LET N == Len(x)  W == tab.tw[N]
   IN [k \in 1..N |-> CSum([n \in 1..N |-> CMulW(x[n], W[(sgn * (k-1) * (n-1)) % N])])]
 
 \* 1/sqrt(n) as Fix: integer square root of 2^120 div n by bisection on BigInt
@@ -49,7 +52,8 @@ ISqrtR(v, lo, hi) ==          \* greatest r in lo..hi with r*r <= v   (lo*lo <= 
   ELSE LET mid == Shl(Add(Add(lo, hi), One), -1)
        IN IF Le(Mul(mid, mid), v) THEN ISqrtR(v, mid, hi) ELSE ISqrtR(v, lo, Sub(mid, One))
 InvSqrt(n) == ISqrtR(FloorDiv(Pow2(2 * FBITS), FromInt(n)), Zero, Pow2(FBITS))
-ISQ == [n \in 1..MaxN |-> InvSqrt(n)]
+Tables == [tw |-> [N \in 1..MaxN |-> Twiddles(N)], isq |-> [n \in 1..MaxN |-> InvSqrt(n)]]
+TabInit == tab = Tables
 
 (***************************************************************************)
 (* 1-D transforms of a line x (sequence of complex), transform length n    *)
@@ -59,7 +63,7 @@ ConjSeq(x) == [k \in 1..Len(x) |-> CConj(x[k])]
 RealSeq(x) == [k \in 1..Len(x) |-> C(x[k].re, FZero)]
 \* dirn "fwd" / "inv"; norm "none" = "backward"
 Scale(y, norm, dirn, n) ==
-  IF norm = "ortho" THEN [k \in 1..Len(y) |-> CMulReal(y[k], ISQ[n])]
+  IF norm = "ortho" THEN [k \in 1..Len(y) |-> CMulReal(y[k], tab.isq[n])]
   ELSE IF (norm = "forward") = (dirn = "fwd") THEN [k \in 1..Len(y) |-> CDivSmall(y[k], n)]
   ELSE y
 Fft1(x, n, norm) == Scale(DftT(Resize(x, n), -1), norm, "fwd", n)
@@ -156,9 +160,6 @@ TolDef == FTol10(12)
 Differ(a, b) == a.sh # b.sh \/ \E i \in 1..Len(a.v) : ~CClose(a.v[i], b.v[i], FTol10(6))
 DefaultCase(name, x) == [name |-> name, x |-> x, n |-> NoneI, axis |-> NoneI, s |-> <<>>, axes |-> <<>>, norm |-> "none"]
 Probes == {Input(<<2, 3, 4>>, "real"), Input(<<3, 2, 4>>, "complex")}
-NamesDistinct ==
-  \A f \in AllNames : \A g \in AllNames \ {f} :
-     \E p \in Probes : Differ(Eval(DefaultCase(f, p)), Eval(DefaultCase(g, p)))
 \* inverse pairs
 InversePairs ==
   \A p \in Probes : \A nm \in {"none", "ortho", "forward"} :
